@@ -21,11 +21,18 @@ RULE = ("seeded generator of operation sequences against a real geckoPacketConn 
         "a further chunk, another chunk count), direct gcExpired(now) calls in between, then the first gc tick / sweep later than "
         "last-created + TTL and new opens per source (1-8, then a 9th): the harness keeps its own first-seen time per entry (entry "
         "pointer, bubble clock) and requires every entry to be gone after the first sweep later than first-seen + TTL and a source to "
-        "be refused only while it has 8 messages that are not yet due; decodeFrame on random/structured "
+        "be refused only while it has 8 messages that are not yet due; (werr) INNER WRITE ERRORS: 1-2 senders write 2-7 packets "
+        "per TTL window over an inner conn that refuses one datagram of some writes (first / middle / last chunk, chunk k mod total, "
+        "k-th inner write of a long-header packet; the datagram of a short-header packet), each failed write followed by further "
+        "writes of the same sender (same size with other bytes, the identical packet retried, another size, short-header, failing "
+        "again), everything that reached the wire fed to the receiver in wire order / interleaved / reversed / permuted with "
+        "duplicates: every packet whose WriteTo returned success must be delivered byte-identical, nothing else may be delivered, "
+        "a refused datagram must surface as an error, the chunks on the wire of a failed write are the leading chunks, and no two "
+        "long-header writes less than 256 apart may put the same message id on the wire (harness's own id record); decodeFrame on random/structured "
         "bytes; option validation. Non-trivial = a reassembled packet was emitted, or a cap/eviction/expiry was reached, or a decode/"
         "config verdict. Distinct = distinct JSON case.")
 ASSUMPTIONS = [
-    "the inner (Salamander) conn delivers datagrams whole and adds exactly smSaltLen bytes (C13); inner write errors are not modelled",
+    "the inner (Salamander) conn delivers datagrams whole and adds exactly smSaltLen bytes (C13); an inner write error means the datagram did not reach the wire (which call fails is an input of the model: write_to_f / send_run)",
     "crypto/rand draws are arbitrary oracle values (uniformity not claimed); the gc ticker fires at multiples of TTL/2 with its scheduled time",
     "pending messages of one source carry distinct 8-bit message ids (hypothesis of C14_no_chimera and of the round-trip theorem's 'no stale entry' premise)",
     "source addresses are compared through net.Addr.String(), modelled as an abstract injective name (N)",
@@ -491,6 +498,105 @@ def gen_replay(rng, lockout=False, real=False):
             "senders": senders, "msgs": msgs, "ops": ops, "must": must, "distinct": bool(real)}
 
 
+def gen_werr(rng, big=False):
+    """inner write errors at every chunk position of a fragmented write, followed by further writes.
+
+    1-2 senders (own source address each; counters incl. the 8-bit / 32-bit wrap) write, per TTL window, 2-7
+    packets each; the inner conn REFUSES one datagram of some of them: the first / a middle / the last chunk, chunk
+    fi mod total, or the fi-th inner write (never reached when the message has fewer chunks) of a long-header
+    packet, or the single datagram of a short-header packet.  A failed long-header write is followed by further
+    writes of the same sender: a long-header packet of the same size with other bytes, the identical packet (the
+    caller's retry), one of another size, short-header packets (accepted / refused), further failing ones.
+    Everything that reached the wire is fed to the receiver: in wire order, senders interleaved in wire order,
+    reversed, or fully permuted with duplicates.  At most 7 long-header packets per source and window (so no
+    source can be at its cap and ids cannot wrap onto each other), all delays tiny, windows separated by a sleep
+    past TTL + one gc period.  Verdict (harness, implementation alone): every packet whose WriteTo returned success
+    is delivered byte-identical at its source, nothing is delivered that was not successfully written, a refused
+    datagram makes WriteTo return an error, the chunks on the wire of a failed write are the leading chunks of its
+    packet, and no two long-header writes less than 256 apart put the same message id on the wire."""
+    if big:
+        omin, omax = rng.choice([(0, 0), (512, 1200)])
+    else:
+        omin, omax = rng.choice(CFGS[:6])
+    nsnd = rng.randint(1, 2)
+    senders = [{"ctr0": rng.choice([0, 5, 200, 253, 254, 255, 2**32 - 1, 2**32 - 2, rng.randrange(2**32)])} for _ in range(nsnd)]
+    msgs, ops = [], []
+
+    def ln():
+        if big:
+            return rng.choice([1000, 1200, 1252, rng.randint(600, 1400)])
+        return rng.choice([2, 8, 9, 16, 17, 33, 40, 64, rng.randint(2, 120)])
+
+    def fault(long):
+        if not long:
+            return {"fk": "first", "fi": 0}
+        k = rng.choice(["first", "mid", "mid", "last", "last", "idx", "idx", "call"])
+        return {"fk": k, "fi": rng.randrange(8)}
+
+    ops.append({"o": "t", "d": rng.choice([1, 10**9, PERIOD - 1, PERIOD, rng.randrange(1, TTL)])})
+    for _w in range(rng.randint(1, 3)):
+        streams = []
+        for s in range(nsnd):
+            mine = []
+            nlong = 0
+            prev = None                 # the last failed long-header packet of this sender
+            for _ in range(rng.randint(2, 7)):
+                r = rng.random()
+                if prev is not None and r < 0.6:
+                    how = rng.random()
+                    if how < 0.4:
+                        m = mk_msg(rng, s, prev["len"])                       # same size, other bytes
+                    elif how < 0.6:
+                        m = {k: v for k, v in prev.items() if k not in ("fk", "fi")}   # the caller retries the packet
+                    else:
+                        m = mk_msg(rng, s, ln())
+                    if rng.random() < 0.25:
+                        m.update(fault(True))
+                elif r < 0.2:
+                    m = mk_msg(rng, s, rng.choice([1, 5, 20, 40]), long=False)
+                    if rng.random() < 0.4:
+                        m.update(fault(False))
+                else:
+                    m = mk_msg(rng, s, ln())
+                    if rng.random() < 0.65:
+                        m.update(fault(True))
+                is_long = m["first"] >= 128 and m["len"] > 0
+                if is_long:
+                    if nlong >= 7:
+                        continue
+                    nlong += 1
+                    prev = m if "fk" in m else None
+                msgs.append(m)
+                mine.append(len(msgs) - 1)
+            streams.append([[{"o": "e", "s": s, "m": mi, "i": i} for i in range(8)] for mi in mine])
+        order = rng.choice(["wire", "wire", "inter", "perm", "rev"])
+        flat = [[o for m in st for o in m] for st in streams]
+        if order == "wire":
+            rng.shuffle(flat)
+            w = [o for st in flat for o in st]
+        elif order == "inter":
+            w = []
+            live = [list(st) for st in flat if st]
+            while live:
+                st = rng.choice(live)
+                w.append(st.pop(0))
+                if not st:
+                    live.remove(st)
+        elif order == "rev":
+            w = [o for st in flat for o in st][::-1]
+        else:
+            w = [o for st in flat for o in st]
+            w += [{"o": "f", "s": o["s"], "m": o["m"], "i": rng.randrange(8)} for o in rng.sample(w, min(len(w), rng.randint(0, 6)))]
+            rng.shuffle(w)
+        for o in w:
+            o = dict(o)
+            o["d"] = rng.choice([0, 1, 1, 1000])
+            ops.append(o)
+        ops.append({"o": "t", "d": TTL + PERIOD + 1})
+    return {"k": "seq", "fam": "werr", "omin": omin, "omax": omax, "rbuf": 2048, "senders": senders, "msgs": msgs,
+            "ops": ops, "must": [], "distinct": True, "automust": True}
+
+
 def gen_dec(rng):
     n = rng.choice([0, 1, 4, 5, 5, 6, 7, 8, 12, 20])
     b = bytearray(rng.randrange(256) for _ in range(n))
@@ -539,6 +645,10 @@ def gen(rng, tier):
         cases.append(gen_replay(rng, lockout=True))
     for _ in range(6 * scale):
         cases.append(gen_replay(rng, real=True))
+    for _ in range(26 * scale):
+        cases.append(gen_werr(rng))
+    for _ in range(2 * scale):
+        cases.append(gen_werr(rng, big=True))
     if tier == "quick":
         cases.append(gen_flood(rng, 600, 8, False, 300))
         cases.append(gen_flood(rng, 700, 7, True, 300))
@@ -561,6 +671,8 @@ def op_term(o):
     d = o.get("d", 0)
     if k == "f":
         return "OFrame %d %d%%N %d%%nat %d%%nat" % (d, o["s"], o["m"], o["i"])
+    if k == "e":
+        return "OFrameE %d %d%%N %d%%nat %d%%nat" % (d, o["s"], o["m"], o["i"])
     if k == "x":
         return "OMut %d %d%%N %d%%nat %d%%nat %d%%nat %d%%N" % (d, o["s"], o["m"], o["i"], o["at"], o["v"])
     if k == "p":
@@ -591,8 +703,11 @@ def to_coq(c, o):
         ms = []
         for m, mo in zip(c["msgs"], o.get("msgs") or []):
             fr = "[" + ";".join(common.coq_bytes(bytes.fromhex(h)) for h in (mo["frames"] or [])) + "]"
-            ms.append("(mkM %d%%nat %d%%N %d%%N %d%%N %d%%N, mkO %s %s %d)" % (
-                m["snd"], m["len"], m["a"], m["b"], m["first"], fr, zl(mo["wire"] or []), mo["n"]))
+            fl = mo.get("fail", -1)
+            ms.append("(mkM %d%%nat %d%%N %d%%N %d%%N %d%%N, mkO %s %s %d %s %s %s)" % (
+                m["snd"], m["len"], m["a"], m["b"], m["first"], fr, zl(mo["wire"] or []), mo["n"],
+                ("(Some %d%%nat)" % fl) if fl >= 0 else "None", common.coq_bytes(bytes.fromhex(mo.get("ref") or "")),
+                "true" if mo.get("err") else "false"))
         ops = [op_term(op) for op in c["ops"]]
         h = 0
         ch = []
@@ -625,6 +740,11 @@ def feats(o, c=None):
     f = []
     if c is not None and selfevicts(c, o) > 0:
         f.append("selfevict")        # the global-cap eviction removed an entry of the source that was opening a message
+    mo = o.get("msgs") or []
+    if any(m.get("fail", -1) >= 0 for m in mo):
+        f.append("ioerr")            # the inner conn refused a datagram
+    if any(m.get("fail", -1) >= 1 and m.get("frames") for m in mo):
+        f.append("orphan")           # ... after earlier chunks of the same packet had reached the wire
     if any(r[0] > 0 for r in st):
         f.append("emit")
     if any(r[4] >= 8 for r in st):
@@ -703,6 +823,6 @@ LEVEL_TEXT = ("Machine-checked Coq theorems over a statement-by-statement Gallin
               "The model is tied to /repo on every run by regenerated constants and a step-by-step differential run of the real "
               "geckoPacketConn (real gc goroutine, fake clock) against the model in vm_compute.")
 LEVEL_NOTE = ("Trusted: Coq kernel + vm_compute; hand-written model (tie is sampled differential testing + regenerated Params); python/Go glue. "
-              "Not proved: crypto/rand uniformity, the real timer, the Salamander layer (C13), inner write errors.")
+              "Not proved: crypto/rand uniformity, the real timer, the Salamander layer (C13).")
 TECHNIQUE = "Coq proof (invariants over all action sequences) on a hand-written model + differential correspondence check in vm_compute"
 DESIGN_REF = "DESIGN.md section 4 C14"
